@@ -21,7 +21,7 @@ import sys
 
 V = os.path.dirname(os.path.dirname(os.path.abspath(__file__)))
 SRC = os.environ.get("RSJ_PARSER_EXPR", "/repo/rsjsonnet-lang/src/parser/expr.rs")
-OUT = os.path.join(V, "lean", "RsjModel", "PrecedenceTable.lean")
+OUT = os.environ.get("RSJ_PRECEDENCE_OUT", os.path.join(V, "lean", "RsjModel", "PrecedenceTable.lean"))
 
 STOK_RENAME = {"True": "True_", "False": "False_"}
 
